@@ -451,6 +451,46 @@ func build(n int, kinds []LeafKind, maxNot int) []*Node {
 	return rec(n)
 }
 
+// AllSigned returns every formula with exactly nLeaves leaves where each leaf is a kind or its negation
+// (`l:v` or `not l:v`), inner nodes carry no negation, and the root carries 0 or 1 negation.
+func AllSigned(nLeaves int, kinds []LeafKind) []*Node {
+	memo := map[int][]*Node{}
+	var rec func(n int) []*Node
+	rec = func(n int) []*Node {
+		if r, ok := memo[n]; ok {
+			return r
+		}
+		var out []*Node
+		if n == 1 {
+			for _, k := range kinds {
+				out = append(out, L(k.Label, k.Value), N(L(k.Label, k.Value)))
+			}
+		} else {
+			for i := 1; i < n; i++ {
+				ls, rs := rec(i), rec(n-i)
+				for _, op := range []Kind{And, Or} {
+					for _, l := range ls {
+						for _, r := range rs {
+							out = append(out, &Node{Kind: op, L: l, R: r})
+						}
+					}
+				}
+			}
+		}
+		memo[n] = out
+		return out
+	}
+	base := rec(nLeaves)
+	out := make([]*Node, 0, 2*len(base))
+	for _, b := range base {
+		out = append(out, b)
+		if nLeaves > 1 {
+			out = append(out, N(b))
+		}
+	}
+	return out
+}
+
 // Assignments returns every map labels -> {absent} ∪ values, in a fixed order.
 func Assignments(labels, values []string) []map[string]string {
 	out := []map[string]string{{}}
